@@ -427,6 +427,7 @@ func injEnumRange(b *Schema, emit emitter) {
 		env := enumEnv(e)
 		for k := range e.Opts {
 			type inj struct {
+				form   string // how the out-of-range value is written (part of the site kind in flags enums)
 				detail string
 				e      *Expr
 			}
@@ -436,7 +437,7 @@ func injEnumRange(b *Schema, emit emitter) {
 				if hex {
 					t = hexLit(v)
 				}
-				injs = append(injs, inj{"literal=" + t, Lit(t)})
+				injs = append(injs, inj{"literal", "literal=" + t, Lit(t)})
 			}
 			lit(above, false)
 			lit(above, true)
@@ -444,33 +445,34 @@ func injEnumRange(b *Schema, emit emitter) {
 			if signed {
 				lit(below, true)
 			}
-			injs = append(injs, inj{"literal=10^40", Lit(huge.String())})
+			injs = append(injs, inj{"literal", "literal=10^40", Lit(huge.String())})
 			if signed {
-				injs = append(injs, inj{"literal=-10^40", Lit("-" + huge.String())})
+				injs = append(injs, inj{"literal", "literal=-10^40", Lit("-" + huge.String())})
 			}
 			if e.Flags {
 				one := Lit("1")
-				ex := func(x *Expr) { injs = append(injs, inj{"expr=" + x.compact(), x}) }
-				ex(Bin("<<", one, Lit(fmt.Sprint(bits))))           // 2^W
-				ex(Par(Bin("<<", one, Lit(fmt.Sprint(bits)))))      // parenthesised
-				ex(Bin("<<", one, Lit("100")))                      // shift far beyond any width
-				ex(Bin("<<", Lit(mx.String()), Lit("2")))           // max<<2: bits are lost in every reading
-				ex(Bin("|", Lit(hexLit(pow2(bits))), one))          // oversize literal inside an expression
-				ex(Bin("<<", Lit(pow2(bits-2).String()), Lit("2"))) // 2^(W-2) << 2 = 2^W
+				ex := func(form string, x *Expr) { injs = append(injs, inj{form, "expr=" + x.compact(), x}) }
+				ex("shift-overflow", Bin("<<", one, Lit(fmt.Sprint(bits))))           // 2^W
+				ex("shift-overflow", Par(Bin("<<", one, Lit(fmt.Sprint(bits)))))      // parenthesised
+				ex("shift-overflow", Bin("<<", one, Lit("100")))                      // shift far beyond any width
+				ex("shift-overflow", Bin("<<", Lit(mx.String()), Lit("2")))           // max<<2: bits are lost in every reading
+				ex("shift-overflow", Bin("<<", Lit(pow2(bits-2).String()), Lit("2"))) // 2^(W-2) << 2 = 2^W
+				ex("oversize-operand", Bin("|", Lit(hexLit(pow2(bits))), one))        // oversize literal inside an expression
 				if bits < 64 {
-					ex(Bin("<<", one, Lit(pow2(bits).String()))) // shift count itself does not fit the base type
+					ex("shift-count-overflow", Bin("<<", one, Lit(pow2(bits).String()))) // the shift count itself does not fit the base type
 				}
 				if !signed {
-					ex(Bin("<<", Lit(mx.String()), one)) // 255 << 1
-					ex(Bin("<<", Lit(pow2(bits-1).String()), one))
+					ex("shift-overflow", Bin("<<", Lit(mx.String()), one)) // 255 << 1
+					ex("shift-overflow", Bin("<<", Lit(pow2(bits-1).String()), one))
 				}
 				if signed {
-					ex(Bin("<<", one, Lit("-1"))) // negative shift count: no integer value at all
+					ex("negative-shift", Bin("<<", one, Lit("-1"))) // negative shift count: no integer value at all
+					ex("negative-shift", Bin(">>", one, Lit("-1")))
 				}
 				// through an earlier option
 				for p := 0; p < k; p++ {
 					if v := env[e.Opts[p].Name]; v.Sign() > 0 {
-						ex(Bin("<<", Ref(e.Opts[p].Name), Lit(fmt.Sprint(bits))))
+						ex("shift-overflow", Bin("<<", Ref(e.Opts[p].Name), Lit(fmt.Sprint(bits))))
 						break
 					}
 				}
@@ -493,7 +495,11 @@ func injEnumRange(b *Schema, emit emitter) {
 				}
 				c := b.clone()
 				c.Defs[di].En.Opts[k].Val = in.e
-				emit(Case{Class: "enum-out-of-range", SiteKind: enumSiteKind(e), Detail: in.detail,
+				sk := enumSiteKind(e)
+				if e.Flags {
+					sk = "flags-" + in.form + "|" + e.baseName()
+				}
+				emit(Case{Class: "enum-out-of-range", SiteKind: sk, Detail: in.detail,
 					Site: fmt.Sprintf("enum %s: %s = %s", e.Name, e.Opts[k].Name, in.e), Schema: c.Render(), Expect: "reject"})
 			}
 		}
